@@ -8,7 +8,7 @@ CONSTANTS
   MaxQ = 1
   MaxOps = 3
   InitCbs <- Cbs1
-  AddCbs = {1, 2}
+  AddCbs = {2}
   FailCleanup = "code"
   CloseOnCertFail = FALSE
   ClearRobust = FALSE
